@@ -43,5 +43,17 @@ variant("run failed", setf(3, "exit", 1))
 variant("second init succeeded", setf(4, "exit", 0))
 variant("second init changed the file", lambda e: (e[4].update(after="file:0000000000000000"), e[5].update(before="file:0000000000000000", after="file:0000000000000000")))
 variant("first init event dropped", lambda e: e[:1] + e[2:])
+# concurrent inits: a real race log is accepted; two winners / a survivor that is not the winner's are rejected
+revs, rob = c18.race_case(ctx, run, 1, 5, 0)
+ok, r = ctx.validate_trace("InitCmdTraceMC", "InitCmdTrace.cfg", revs)
+print("real race log accepted:", ok, rob["exits"])
+assert ok
+for name, f in (("two winners", lambda e: e[1].update(oks=2, winner="-")),
+                ("no winner", lambda e: e[1].update(oks=0, winner="-")),
+                ("survivor is not the winner's file", lambda e: e[2].update(keys=["example.com/w/someone-else"], fkeys=["example.com/w/someone-else"]))):
+    e = copy.deepcopy(revs); f(e)
+    ok, r = ctx.validate_trace("InitCmdTraceMC", "InitCmdTrace.cfg", e)
+    print(f"{name:45s} accepted={ok}")
+    assert not ok, name
 print("all corruptions rejected")
 ctx.cleanup()
